@@ -39,7 +39,12 @@ impl Ctx {
 
     pub fn run(&self, worker: usize, program: &[u8], w: &World, plan: &Plan) -> RunResult {
         self.child_runs.fetch_add(1, Ordering::Relaxed);
-        let r = exec::run(&self.cfg, worker, program, w, plan);
+        let mut r = exec::run(&self.cfg, worker, program, w, plan);
+        if r.status == Status::Hang {
+            // a hang is only believed when it repeats (machine load must not raise alarms)
+            self.child_runs.fetch_add(1, Ordering::Relaxed);
+            r = exec::run(&self.cfg, worker, program, w, plan);
+        }
         if !r.seam_ok {
             eprintln!("HARNESS-ERROR: sink content differs from the shim's event log (seam incomplete)");
             eprintln!("  world={} plan={}", w.to_json(), plan.encode_items());
